@@ -93,9 +93,9 @@ Print Assumptions C08_monitor.
 
 (* ------------------------------------------------------------------------------------------ *)
 (* End-to-end response integrity over the composition of the client and server models
-   (coq/ChainResp*.v; monitor ChainRespSpec.c01c_ok, evaluated on every real chain trace by part
-   compose); names are qualified. *)
-From TarpcV Require Client Server Chain ChainSpec ChainRespSpec ChainResp ChainResp2 ChainResp3 ChainResp4 ChainResp5.
+   (coq/ChainResp*.v, ChainIds.v, ClientWaiters.v; monitor ChainRespSpec.c01c_ok, also evaluated
+   on every real chain trace by part compose); names are qualified. *)
+From TarpcV Require Client Server Chain ChainSpec ChainRespSpec ChainResp ChainResp2 ChainResp3 ChainResp4 ChainResp5 ChainResp6.
 (* C08 across the hop, on the COMPOSITION (coq/Chain.v), for EVERY depth and EVERY op list.
    (a) every state, no hypothesis: a request yielded to the application on node i (KYield i k id
        .. body) was written into link i before with this request id and this body (KWire i
